@@ -15,4 +15,3 @@ func (w *worker) noteStrFact(kind string, src *Term, outs ...*Term) {
 
 func registerStringStubs() {}
 
-func registerNetStubs() {}
